@@ -451,6 +451,8 @@ pub fn run(opts: &Opts) -> Report {
             ("include/store-chain-of-three", st("a", "\"b.store.stam.json\"", &a("a1", "r-a")), vec![("b.store.stam.json", st("b", "\"c.store.stam.json\"", &a("b1", "r-b"))), ("c.store.stam.json", st("c", "[]", &a("c1", "r-c")))]),
             ("include/dataset-includes-itself", format!("{{\"@type\": \"AnnotationStore\", \"resources\": [], \"annotationsets\": [{{\"@type\": \"AnnotationDataSet\", \"@id\": \"s\", \"@include\": \"s.dataset.stam.json\"}}], \"annotations\": []}}"), vec![("s.dataset.stam.json", "{\"@type\": \"AnnotationDataSet\", \"@id\": \"s\", \"@include\": \"s.dataset.stam.json\"}".to_string())]),
             ("include/resource-missing", format!("{{\"@type\": \"AnnotationStore\", \"resources\": [{{\"@type\": \"TextResource\", \"@id\": \"r\", \"@include\": \"nope.txt\"}}], \"annotationsets\": [], \"annotations\": []}}"), vec![]),
+            ("include/resource-json-without-text", format!("{{\"@type\": \"AnnotationStore\", \"resources\": [{{\"@type\": \"TextResource\", \"@id\": \"r\", \"@include\": \"r.json\"}}], \"annotationsets\": [], \"annotations\": []}}"), vec![("r.json", "{\"@type\": \"TextResource\", \"@id\": \"r\"}".to_string())]),
+            ("include/resource-json-includes-itself", format!("{{\"@type\": \"AnnotationStore\", \"resources\": [{{\"@type\": \"TextResource\", \"@id\": \"r\", \"@include\": \"r.json\"}}], \"annotationsets\": [], \"annotations\": []}}"), vec![("r.json", "{\"@type\": \"TextResource\", \"@id\": \"r\", \"@include\": \"r.json\"}".to_string())]),
             ("include/resource-is-directory", format!("{{\"@type\": \"AnnotationStore\", \"resources\": [{{\"@type\": \"TextResource\", \"@id\": \"r\", \"@include\": \".\"}}], \"annotationsets\": [], \"annotations\": []}}"), vec![]),
         ];
         for (name, doc, extra) in multi {
@@ -461,7 +463,7 @@ pub fn run(opts: &Opts) -> Report {
     //      list of every such row loses its last / first element or has one element blanked (exhaustively)
     {
         let mut ex = crate::fam::store::Exec::new();
-        for l in ["st addres r0 9", "st annot a0 T:r0:b0:b5", "st annot a1 T:r0:b2:b8", "st annot a2 C[AO:a0:b0:b2;AO:a1:b1:b3] s0/k0/s:v0/d0", "st annot a3 M[T:r0:b0:b1;AO:a1:b0:e-1;R:r0] s0/k0/s:v0/d0 s0/k1/i:1/d1", "st annot a4 X[T:r0:b1:b2;T:r0:b3:b4]"] { ex.exec(l); }
+        for l in ["st addres r0 9", "st annot a0 T:r0:b0:b5", "st annot a1 T:r0:b2:b8", "st annot a2 C[AO:a0:b0:b2;AO:a1:b1:b3] s0/k0/s:v0/d0", "st annot a3 M[T:r0:b0:b1;AO:a1:b0:e-1;R:r0] s0/k0/s:v0/d0 s0/k1/i:1/d1", "st annot a4 X[T:r0:b1:b2;T:r0:b3:b4]", "st annot a5 M[K:s0:k0;T:r0:b0:b1]", "st annot a6 X[D:s0:d0;R:r0]", "st annot a7 C[S:s0;K:s0:k1]"] { ex.exec(l); }
         let sub = dir.join("csvcrafted");
         std::fs::create_dir_all(&sub).ok();
         let p = sub.join("x.store.stam.csv");
@@ -482,6 +484,8 @@ pub fn run(opts: &Opts) -> Report {
                         let items: Vec<String> = cell.split(';').map(|s| s.to_string()).collect();
                         let mut variants: Vec<(String, Vec<String>)> = vec![("last-dropped".into(), items[..items.len() - 1].to_vec()), ("first-dropped".into(), items[1..].to_vec())];
                         for b in 0..items.len() { let mut v = items.clone(); v[b] = String::new(); variants.push((format!("blanked{}", b), v)); }
+                        variants.push(("emptied".into(), vec![]));
+                        variants.push(("only-first".into(), items[..1].to_vec()));
                         for (what, v) in variants {
                             let mut c2 = cells.clone(); c2[ci] = v.join(";");
                             let mut l2 = lines.clone(); l2[ri] = c2.join(",");
@@ -607,7 +611,7 @@ pub fn tempid_stream(rep: &mut Report, rng: &mut Rng, n: usize) {
 /// diagnostic: write a small store with a composite of annotation selectors with offsets as STAM CSV into `dir`
 pub fn csv_sample(dir: &str) {
     let mut ex = crate::fam::store::Exec::new();
-    for l in ["st addres r0 9", "st annot a0 T:r0:b0:b5", "st annot a1 T:r0:b2:b8", "st annot a2 C[AO:a0:b0:b2;AO:a1:b1:b3] s0/k0/s:v0/d0"] { println!("{} -> {}", l, ex.exec(l)); }
+    for l in ["st addres r0 9", "st annot a0 T:r0:b0:b5", "st annot a1 T:r0:b2:b8", "st annot a2 C[AO:a0:b0:b2;AO:a1:b1:b3] s0/k0/s:v0/d0", "st annot a5 M[K:s0:k0;T:r0:b0:b1]", "st annot a6 X[D:s0:d0;R:r0]", "st annot a7 C[S:s0;K:s0:k0]"] { println!("{} -> {}", l, ex.exec(l)); }
     std::fs::create_dir_all(dir).ok();
     let p = format!("{}/x.store.stam.csv", dir);
     println!("{:?}", ex.store.to_file(&p).map_err(|e| format!("{}", e)));
